@@ -95,4 +95,8 @@ example : (match collectExtensions { types := [{ kind := .object, name := "Query
     | .ok c => (usedParts c).length == 1 && c.typeDefs.isEmpty
     | .error _ => false) = true := by decide
 
+/-- non-vacuity of `two_phase_directives_once`: the hypotheses hold for a schema built from the document -/
+example := two_phase_directives_once { types := [{ kind := .object, name := "Query" }], directives := [], roots := {} }
+  [.type { kind := .object, name := "Query", dirs := [{ name := "mark" }] }, .ext { kind := .object, name := "Query" }] (by decide) (by decide)
+
 end PyGql.Props.C11
